@@ -69,6 +69,9 @@ M = [
  ('c18-cpp-borrow', 'C18', 'platform/c++11/src/time_rep_timespec.cc', '\t\ta.tv_nsec += NSYNC_NS_IN_S_;\n\t\ta.tv_sec--;', '\t\ta.tv_nsec += NSYNC_NS_IN_S_;'),
  ('c19-note-no-null-check', 'C19', 'internal/note.c', '\tnsync_note n = (nsync_note) malloc (sizeof (*n));\n\tif (n != NULL) {', '\tnsync_note n = (nsync_note) malloc (sizeof (*n));\n\tif (1) {'),
  ('c19-counter-memset-first', 'C19', 'internal/counter.c', '\tnsync_counter c = (nsync_counter) malloc (sizeof (*c));\n\tif (c != NULL) {', '\tnsync_counter c = (nsync_counter) malloc (sizeof (*c));\n\tmemset ((void *) c, 0, sizeof (*c));\n\tif (c != NULL) {'),
+ ('c03-ptw-once-store-relaxed', 'C03', 'platform/posix/src/per_thread_waiter.c', '\t\t\tpthread_key_create (&waiter_key, dest);\n\t\t\tATM_STORE_REL (ponce, 2);', '\t\t\tpthread_key_create (&waiter_key, dest);\n\t\t\tATM_STORE (ponce, 2);'),
+ ('c03-ptw-once-load-relaxed', 'C03', 'platform/posix/src/per_thread_waiter.c', '\tuint32_t o = ATM_LOAD_ACQ (ponce);\n\tif (o != 2) {', '\tuint32_t o = ATM_LOAD (ponce);\n\tif (o != 2) {'),
+ ('c13-ptw-key-published-early', 'C13', 'platform/posix/src/per_thread_waiter.c', '\t\t\tpthread_key_create (&waiter_key, dest);\n\t\t\tATM_STORE_REL (ponce, 2);', '\t\t\tATM_STORE_REL (ponce, 2);\n\t\t\tpthread_key_create (&waiter_key, dest);'),
  ('c15-timepoint-truncates', 'C15', 'platform/c++11/src/time_rep_timespec.cc', 'if (ts.tv_nsec < 0) {', 'if (0 && ts.tv_nsec < 0) {'),
  ('c15-futex-no-clamp', 'C15', 'platform/linux/src/nsync_semaphore_futex.c', 'if (ts_buf.tv_sec < 0) {', 'if (0 && ts_buf.tv_sec < 0) {'),
 ]
